@@ -436,13 +436,234 @@ class AFrame(Stub):
         return len(self.stamps)
 
 
+NANPV = PV({})   # a missing value: empty provenance (what NaN is under this abstraction)
+
+
+class NArr(Stub):
+    """A 1-d NumPy array under the provenance abstraction: its entries are provenance values, integers (positions) or booleans."""
+
+    def __init__(self, xs):
+        self.xs = list(xs)
+
+    def __iter__(self):
+        return iter(self.xs)
+
+    def _abs_len(self):
+        return len(self.xs)
+
+    def __len__(self):
+        return len(self.xs)
+
+    def _pos(self, i):
+        if isinstance(i, bool) or not isinstance(i, int):
+            raise Unsupported("array position that is not an integer")
+        if not -len(self.xs) <= i < len(self.xs):
+            raise IndexError(f"index {i} is out of bounds for axis 0 with size {len(self.xs)}")
+        return i
+
+    def __getitem__(self, k):
+        if isinstance(k, slice):
+            return NArr(self.xs[k])
+        if isinstance(k, NArr):
+            if k.xs and all(isinstance(b, bool) for b in k.xs):
+                if len(k.xs) != len(self.xs):
+                    raise IndexError(f"boolean index did not match indexed array: {len(self.xs)} vs {len(k.xs)}")
+                return NArr([x for x, b in zip(self.xs, k.xs) if b])
+            return NArr([self.xs[self._pos(i)] for i in k.xs])
+        if isinstance(k, list):
+            return self[NArr(k)]
+        return self.xs[self._pos(k)]
+
+    def __setitem__(self, k, v):
+        if isinstance(k, (NArr, list)):
+            ks = list(k)
+            if ks and all(isinstance(b, bool) for b in ks):
+                ks = [i for i, b in enumerate(ks) if b]
+            vs = list(v) if isinstance(v, (NArr, list)) else [v] * len(ks)
+            if len(vs) != len(ks):
+                raise ValueError("shape mismatch in array assignment")
+            for i, x in zip(ks, vs):
+                self.xs[self._pos(i)] = x
+            return
+        if isinstance(k, slice):
+            raise Unsupported("slice assignment into an array")
+        self.xs[self._pos(k)] = v
+
+    def _ew(self, o, f, swap=False):
+        if isinstance(o, (NArr, list)):
+            ys = list(o)
+            if len(ys) != len(self.xs):
+                raise ValueError(f"operands could not be broadcast together with shapes ({len(self.xs)},) ({len(ys)},)")
+            return NArr([f(b, a) if swap else f(a, b) for a, b in zip(self.xs, ys)])
+        return NArr([f(o, a) if swap else f(a, o) for a in self.xs])
+
+    def __add__(self, o): return self._ew(o, lambda a, b: a + b)
+    def __radd__(self, o): return self._ew(o, lambda a, b: a + b, True)
+    def __sub__(self, o): return self._ew(o, lambda a, b: a - b)
+    def __rsub__(self, o): return self._ew(o, lambda a, b: a - b, True)
+    def __mul__(self, o): return self._ew(o, lambda a, b: a * b)
+    def __rmul__(self, o): return self._ew(o, lambda a, b: a * b, True)
+    def __truediv__(self, o): return self._ew(o, lambda a, b: a / b)
+    def __invert__(self): return NArr([not b for b in self.xs])
+
+    def copy(self): return NArr(self.xs)
+    def tolist(self): return list(self.xs)
+    def astype(self, t): return NArr(self.xs)
+    def flatten(self): return NArr(self.xs)
+    def to_numpy(self, *a, **k): return NArr(self.xs)
+
+    @property
+    def size(self): return len(self.xs)
+
+    @property
+    def shape(self): return (len(self.xs),)
+
+    def __repr__(self):
+        return f"NArr({self.xs})"
+
+
+def _seq(x):
+    if isinstance(x, NArr):
+        return list(x.xs)
+    if isinstance(x, (list, tuple, range)):
+        return list(x)
+    raise Unsupported("array function applied to something that is not a 1-d sequence")
+
+
+def _mean(vals):
+    if any((isinstance(v, PV) and not v.w) for v in vals):
+        return NANPV      # NaN in, NaN out
+    acc = vals[0]
+    for v in vals[1:]:
+        acc = acc + v
+    return acc / len(vals)
+
+
+class _Rolling(Stub):
+    def __init__(self, xs, k):
+        self.xs, self.k = xs, k
+
+    def mean(self):
+        k = self.k
+        return PSeries([NANPV if i + 1 < k else _mean(self.xs[i + 1 - k:i + 1]) for i in range(len(self.xs))])
+
+
+class PSeries(Stub):
+    """pd.Series over provenance values with a default RangeIndex: rolling(k).mean(), shift(n), to_numpy()/values, positional .iloc."""
+
+    def __init__(self, xs):
+        self.xs = list(xs)
+
+    def rolling(self, window, *a, **k):
+        if a or k or not isinstance(window, int) or window < 1:
+            raise Unsupported("rolling() other than rolling(<int>)")
+        return _Rolling(self.xs, window)
+
+    def shift(self, n=1, **k):
+        if k or not isinstance(n, int):
+            raise Unsupported("shift() other than shift(<int>)")
+        L = len(self.xs)
+        if n >= 0:
+            return PSeries(([NANPV] * min(n, L) + self.xs[:max(L - n, 0)]))
+        return PSeries(self.xs[min(-n, L):] + [NANPV] * min(-n, L))
+
+    def to_numpy(self, *a, **k): return NArr(self.xs)
+
+    @property
+    def values(self): return NArr(self.xs)
+
+    def tolist(self): return list(self.xs)
+    to_list = tolist
+
+    def _abs_len(self): return len(self.xs)
+
+    def __iter__(self): return iter(self.xs)
+
+
+class PDp(Stub):
+    @staticmethod
+    def Series(data=None, *a, **k):
+        if a or k:
+            raise Unsupported("pd.Series with an index / dtype")
+        return PSeries(_seq(data))
+
+
 class NP(Stub):
+    nan = NANPV
+
     @staticmethod
     def concatenate(parts):
         out = []
         for p in parts:
             out.extend(list(p))
         return out
+
+    @staticmethod
+    def asarray(x, dtype=None, **k):
+        return NArr(_seq(x))
+
+    array = asarray
+
+    @staticmethod
+    def ones(n, dtype=None):
+        if not isinstance(n, int):
+            raise Unsupported("np.ones with a shape that is not an integer")
+        return NArr([True if dtype in (bool, "bool") else 1] * n)
+
+    @staticmethod
+    def zeros(n, dtype=None):
+        if not isinstance(n, int):
+            raise Unsupported("np.zeros with a shape that is not an integer")
+        return NArr([False if dtype in (bool, "bool") else 0] * n)
+
+    @staticmethod
+    def arange(*a):
+        return NArr(list(range(*a)))
+
+    @staticmethod
+    def insert(arr, obj, values):
+        """np.insert on a 1-d array: positions refer to the array *before* insertion; equal positions keep the order given."""
+        xs = _seq(arr)
+        pos = _seq(obj) if isinstance(obj, (NArr, list, tuple)) else [obj]
+        vals = _seq(values) if isinstance(values, (NArr, list, tuple)) else [values] * len(pos)
+        if len(vals) != len(pos):
+            if len(vals) == 1:
+                vals = vals * len(pos)
+            else:
+                raise ValueError("shape mismatch: value array could not be broadcast to indexing result")
+        n = len(xs)
+        norm = []
+        for p in pos:
+            if isinstance(p, bool) or not isinstance(p, int):
+                raise Unsupported("np.insert position that is not an integer")
+            if not -n <= p <= n:
+                raise IndexError(f"index {p} is out of bounds for axis 0 with size {n}")
+            norm.append(p + n if p < 0 else p)
+        order = sorted(range(len(norm)), key=lambda i: norm[i])   # stable
+        out, j = [], 0
+        for i in range(n + 1):
+            while j < len(order) and norm[order[j]] == i:
+                out.append(vals[order[j]])
+                j += 1
+            if i < n:
+                out.append(xs[i])
+        return NArr(out)
+
+    @staticmethod
+    def delete(arr, obj):
+        xs = _seq(arr)
+        pos = set(_seq(obj)) if isinstance(obj, (NArr, list, tuple)) else {obj}
+        for p in pos:
+            if not -len(xs) <= p < len(xs):
+                raise IndexError(f"index {p} is out of bounds for axis 0 with size {len(xs)}")
+        pos = {p % len(xs) for p in pos} if xs else set()
+        return NArr([x for i, x in enumerate(xs) if i not in pos])
+
+    @staticmethod
+    def sort(x): return NArr(sorted(_seq(x)))
+
+    @staticmethod
+    def mean(x): return _mean(_seq(x))
 
 
 NORMAL = [(h, 0) for h in range(24)]
@@ -509,7 +730,7 @@ class Helpers:
     def run(self, frame: AFrame) -> dict:
         """Interpret the three helpers on one abstract frame; returns what happened."""
         it = Interp(step_limit=400_000)
-        genv = ModuleEnv(self.chk.repo, self.mod, it, {"np": NP(), "numpy": NP()})   # module scope: constants, records, helper functions
+        genv = ModuleEnv(self.chk.repo, self.mod, it, {"np": NP(), "numpy": NP(), "pd": PDp(), "pandas": PDp()})   # module scope: constants, records, helper functions
         out = {"stage": None, "raised": None}
         try:
             out["stage"] = "_get_dst_indices"
